@@ -21,6 +21,7 @@
 #include <fstream>
 #include <iomanip>
 #include <iostream>
+#include <limits>
 #include <memory>
 #include <optional>
 #include <sstream>
@@ -149,7 +150,20 @@ namespace bloch::update {
                 }
                 if (start == pos)
                     break;
-                int value = std::stoi(v.substr(start, pos - start));
+                // A component that does not fit an int makes the whole string unparseable;
+                // std::stoi would throw std::out_of_range out of the update check.
+                long long wide = 0;
+                bool fits = true;
+                for (size_t i = start; i < pos; ++i) {
+                    wide = wide * 10 + (v[i] - '0');
+                    if (wide > std::numeric_limits<int>::max()) {
+                        fits = false;
+                        break;
+                    }
+                }
+                if (!fits)
+                    return SemVer{};
+                int value = static_cast<int>(wide);
                 if (idx == 0)
                     sem.major = value;
                 else if (idx == 1)
